@@ -792,11 +792,19 @@ def val_confatomic(ctx: Ctx) -> RuleResult:
     lp = loops[0]
     inner = [x for x in own_walk(lp) if isinstance(x, ast.Raise)]
     dup_before = []
+    def _may_refuse(call: ast.AST) -> bool:
+        q = next((q for c, q in ctx.calls_in(f) if c is call), None)
+        g = ctx.P.funcs.get(q) if q else None
+        # a plain function (its body runs to the end before the caller goes on - not a generator) that can raise
+        return g is not None and any(isinstance(x, ast.Raise) for x in iter_own_nodes(g.node)) \
+            and not any(isinstance(x, (ast.Yield, ast.YieldFrom)) for x in iter_own_nodes(g.node))
+
     for st in iter_own_nodes(f.node):
-        if isinstance(st, ast.Expr) and isinstance(st.value, ast.Call) and st.lineno < lp.lineno:
-            q = next((q for c, q in ctx.calls_in(f) if c is st.value), None)
-            if q in ctx.P.funcs and any(isinstance(x, ast.Raise) for x in iter_own_nodes(ctx.P.funcs[q].node)):
-                dup_before.append(st)
+        if isinstance(st, (ast.Expr, ast.Assign)) and isinstance(st.value, ast.Call) and st.lineno < lp.lineno and _may_refuse(st.value):
+            dup_before.append(st)
+    # the iterable of the applying loop is evaluated before its first iteration
+    if isinstance(lp.iter, ast.Call) and _may_refuse(lp.iter):
+        dup_before.append(lp.iter)
     r.ob(bool(dup_before) and not inner, {"validated before the first entry is applied": [norm_src(x)[:60] for x in dup_before],
                                           "refusals inside the applying loop": len(inner)})
     if inner:
